@@ -145,6 +145,9 @@ def main(argv=None):
         return 3
     if a.tier == 'thorough':
         os.environ['PYVC_RECHECK'] = '1'
+    for c in mine:
+        if 'eval_log_args' not in c.hooks:
+            c.hooks = dict(c.hooks, eval_log_args=a.prop not in LOG_ARGS_OFF)
     _CONTRACTS = mine
     ctx = multiprocessing.get_context('fork')
     results = [None] * len(mine)
@@ -410,6 +413,9 @@ def report(a, seed, mine, results, t0):
                  'raise_paths': r.raise_paths, 'obligation_instances': len(r.obligations),
                  'solver_calls': r.solver_calls, 'solver_time_s': round(r.solver_time, 3),
                  'wall_s': round(r.wall, 3), 'bounded': c.bounded, 'sentinel': c.expect_fail,
+                 'log_calls_with_arguments_evaluated': getattr(r, 'log_args', {}).get('evaluated', 0),
+                 'log_calls_with_arguments_skipped': getattr(r, 'log_args', {}).get('skipped', 0),
+                 'queries_retried_with_larger_budget': getattr(r, 'retries', 0),
                  'notes': r.notes[:8], 'undecided': r.undecided[:4]}
                 for c, r in zip(mine, results)],
             'obligation_table': [
@@ -429,7 +435,7 @@ def report(a, seed, mine, results, t0):
             'solver_time_s': round(sum(r.solver_time for r in results), 3),
             'undecided': undecided[:20],
         },
-        'assumptions': ASSUMPTIONS + _ASSUMED + sorted(set(n for r in results for n in r.notes))[:40],
+        'assumptions': [LOG_ASSUMPTION[a.prop not in LOG_ARGS_OFF]] + ASSUMPTIONS + _ASSUMED + sorted(set(n for r in results for n in r.notes))[:40],
         'wall_s': round(wall, 2),
         'violations': len(lines),
     }
@@ -535,8 +541,16 @@ TRUSTED = [
     'spec functions in /verif/specs as the independent reading of the external standards',
     'environment models in /verif/models (assumed contracts on dependencies)',
 ]
+LOG_ARGS_OFF = {'C13', 'C14'}
+LOG_ASSUMPTION = {
+    True: 'logging calls (log.*, self.log.*) are dropped; their argument expressions are evaluated first wherever the '
+          'executor can evaluate them (an exception raised there leaves the function), str(obj)/__str__ of instances '
+          'inside them is not run unless a contract asks for it, and what cannot be evaluated is assumed not to raise',
+    False: 'logging calls (log.*, self.log.*) are side-effect free and do not raise; their arguments are not evaluated '
+           '(the host-link functions index tables by the symbolic command code inside log arguments, which multiplies '
+           'the paths beyond the budget)',
+}
 ASSUMPTIONS = [
-    'logging calls (log.*, self.log.*) are side-effect free and do not raise; their arguments are not evaluated',
     'Python ints are mathematical integers (exact); floats in timeouts are treated as reals',
     'threads are not executed: each function runs sequentially; locks/conditions are ghost state',
 ]
